@@ -138,6 +138,16 @@ CLAIMED = {
         ref='DESIGN.md §6 C15', note='Operands in the expansion theorems are opaque symbols (the macros only splice them); semantic equations for the temporal forms are the C03/C04 theorems '
              'applied to the expansions and are otherwise covered by the twin differential. A false expansion theorem makes the kernel evaluation run into the proof time limit (reported as a broken obligation).',
         technique='Lean 4 proof by kernel evaluation over the regenerated library (translator) + twin-interpreter differential'),
+    'C05': dict(
+        text='Operator-level theorems against an arbitrary evaluator of the body: scoped_ref (~n under a captured real scope S denotes S.n, a missing signal '
+             'is an error), grouped_ref (#n denotes G immediately followed by n), scoped_ref_alias / alias_read / alias_sets (the alias is looked up at '
+             'each evaluation, so re-aliasing takes effect for every later reference), candidate_literal (suffixes matched as literal text) with '
+             'kernel-evaluated instances (.valid does not match a_valid; direct non-empty local part under a captured scope), scoped_restores, '
+             'scoped_body_sees_scope, allscopes_restores, ingroup_restores, writeGlobal_fields. Correspondence: generated hierarchies x scripts of '
+             'constructs at a random index; oracle = set comprehension over the generated names.',
+        ref='DESIGN.md §6 C05', note='groups with a captured scope follows the reading "p = CS.m with a non-empty local part m without dots". The restore theorems speak about the captured scope/group '
+             'fields; that the CS/CG variables carry the same value is by the correspondence (CS CG LOCAL-SIGNALS LOCAL-SCOPES probed before, inside, after).',
+        technique='Lean 4 proof (operator-level denotation and restore laws) + correspondence against a set-comprehension oracle'),
 }
 
 REASONS_PENDING = 'check under construction in this round (DESIGN.md §13 build order); not a claim of inapplicability'
